@@ -1052,7 +1052,7 @@ impl World {
 		if !p.ev.sent.is_empty() {
 			// was the PaymentSent handled only after the snapshot this incarnation started from?
 			let stale = self.nodes[n].incarnation > 0
-				&& p.ev.sent_gen.iter().all(|g| *g + 1 > loaded)
+				&& (p.ev.sent_gen.iter().all(|g| *g + 1 > loaded) || p.sent_handling_lost)
 				&& p.ev.sent.iter().all(|s| s.1 < self.nodes[n].incarnation);
 			let ctx = if stale {
 				" [PaymentSent was handled in an earlier incarnation, after the ChannelManager snapshot this incarnation restarted from]"
@@ -1065,8 +1065,11 @@ impl World {
 		let inc = self.nodes[n].incarnation;
 		if p.ev.failed.iter().filter(|s| s.1 == inc).count() > 1 {
 			let outdated = p.paths.iter().any(|x| self.nodes[n].outdated_chans.contains(&x.chans[0]));
+			let earlier = p.paths.iter().any(|x| self.nodes[n].ever_outdated_chans.contains(&x.chans[0]));
 			let ctx = if outdated {
 				" [its first-hop channel was closed with OutdatedChannelManager in this incarnation: failed once at start-up from the stale manager's view and again when the newer ChannelMonitor resolved the HTLC on chain]"
+			} else if earlier {
+				" [its first-hop channel was closed with OutdatedChannelManager in an earlier incarnation: the failure generated then is generated again by this incarnation's start-up and once more when the ChannelMonitor resolves the HTLC on chain]"
 			} else {
 				""
 			};
